@@ -65,4 +65,3 @@ func main() {
 	}
 	os.Exit(parentMain(def, tier))
 }
-
